@@ -51,7 +51,7 @@ func genSchema(r *Rng, o *Out) (*jsonapi.Schema, []stype) {
 		} else {
 			o.stat("type.soft")
 		}
-		_ = s.AddType(typ)
+		putType(s, typ)
 		ts = append(ts, stype{typ, backed})
 	}
 	return s, ts
@@ -871,15 +871,15 @@ func suiteLiterals(r *Rng, n int, thorough bool, o *Out) {
 	s := &jsonapi.Schema{}
 	typ := jsonapi.Type{Name: "t"}
 	for k := 1; k <= 14; k++ {
-		_ = typ.AddAttr(jsonapi.Attr{Name: jsonapi.GetAttrTypeString(k, false), Type: k})
-		_ = typ.AddAttr(jsonapi.Attr{Name: "n" + jsonapi.GetAttrTypeString(k, false), Type: k, Nullable: true})
+		putAttr(&typ, jsonapi.Attr{Name: jsonapi.GetAttrTypeString(k, false), Type: k})
+		putAttr(&typ, jsonapi.Attr{Name: "n" + jsonapi.GetAttrTypeString(k, false), Type: k, Nullable: true})
 	}
-	_ = typ.AddRel(jsonapi.Rel{FromType: "t", FromName: "one", ToOne: true, ToType: "t"})
-	_ = typ.AddRel(jsonapi.Rel{FromType: "t", FromName: "many", ToOne: false, ToType: "t"})
-	_ = typ.AddRel(jsonapi.Rel{FromType: "t", FromName: "one2", ToOne: true, ToType: "t"})
-	_ = typ.AddRel(jsonapi.Rel{FromType: "t", FromName: "one3", ToOne: true, ToType: "t"})
-	_ = typ.AddRel(jsonapi.Rel{FromType: "t", FromName: "many2", ToOne: false, ToType: "t"})
-	_ = s.AddType(typ)
+	putRel(&typ, jsonapi.Rel{FromType: "t", FromName: "one", ToOne: true, ToType: "t"})
+	putRel(&typ, jsonapi.Rel{FromType: "t", FromName: "many", ToOne: false, ToType: "t"})
+	putRel(&typ, jsonapi.Rel{FromType: "t", FromName: "one2", ToOne: true, ToType: "t"})
+	putRel(&typ, jsonapi.Rel{FromType: "t", FromName: "one3", ToOne: true, ToType: "t"})
+	putRel(&typ, jsonapi.Rel{FromType: "t", FromName: "many2", ToOne: false, ToType: "t"})
+	putType(s, typ)
 	ts := []stype{{typ, false}}
 	ssx := sxSSchema(ts)
 	emitOne := func(name, lit string) {
